@@ -216,7 +216,7 @@ def gen_case(rng):
                     elif r < 0.85 and gen:
                         body.append(['yield', rng.choice([None, 'v'])])
                 if rng.random() < 0.12:
-                    body.append(['raise'])
+                    body.append(['raise'] if rng.random() < 0.75 else ['raise', 'base'])
                 handlers.append(HD(hid, nm, body, gen=gen, prio=rng.choice([0, 0, 1])))
     fires = []
     for _ in range(rng.randint(1, 3)):
